@@ -105,3 +105,10 @@ pub use crate::map::HashMap;
 pub use crate::set::HashSet;
 
 pub use hashbrown::TryReserveError;
+
+#[cfg(feature = "verif")]
+#[doc(hidden)]
+pub mod verif {
+    //! Introspection types for out-of-tree verification harnesses.
+    pub use crate::raw::verif::{Location, OldState, State, TableState};
+}
